@@ -240,7 +240,8 @@ def malformed_stream(ctx, dis, hist):
     # (b) mu_r /= 1 -> NotImplementedError
     with H.quiet():
         sim = H.new_sim(spec, solver=H.LOOSE)
-        sim.model.mu_r = np.full(sim.model.shape, 1.5)
+        sim.model = emg3d.Model(sim.model.grid, property_x=sim.model.property_x,
+                                mu_r=np.full(sim.model.shape, 1.5))
         try:
             _ = sim.gradient
             got = 'ok'
@@ -351,6 +352,12 @@ def taylor_case(spec, dir_seed, h0=None):
         sim = H.new_sim(spec, solver=H.TIGHT)
         phi0 = float(sim.misfit)
         g = np.array(sim.gradient)
+    # the oracle must be good: skip (do not alarm) when a tight solve did not converge
+    for dn in ('_dict_efield_info', '_dict_bfield_info'):
+        for dd in getattr(sim, dn, {}).values():
+            for info in dd.values():
+                if info is not None and info.get('exit', 0) != 0 and info.get('rel_error', 1) > 1e-9:
+                    return None, {'skipped': 'solver did not converge', 'slopes': [], 'ratio_err': float('nan')}
     ncomp = H.NCOMP[spec['aniso']]
     nx, ny, nz = len(spec['hx']), len(spec['hy']), len(spec['hz'])
     want_shape = (nx, ny, nz) if ncomp == 1 else (ncomp, nx, ny, nz)
@@ -377,8 +384,8 @@ def taylor_case(spec, dir_seed, h0=None):
               if rem[i] > 100 * floor and rem[i + 1] > 100 * floor]
     ratio_err = abs(cen[2] - gd) / max(abs(gd), 1e-300)
     ratio_err0 = abs(cen[0] - gd) / max(abs(gd), 1e-300)
-    bad = (any(s < 1.8 for s in slopes) and ratio_err > 1e-4) or \
-          (ratio_err > 2e-3 and ratio_err > 0.5 * ratio_err0 * 0.25 + 1e-3)
+    bad = (any(s < 1.8 for s in slopes) and ratio_err > 1e-3) or ratio_err > 0.05
+    _ = ratio_err0
     diag.update(slopes=slopes, ratio_err=ratio_err)
     if bad:
         return ({'signature': 'misfit finite differences do not converge (2nd order) to <gradient, dir>',
